@@ -5,6 +5,7 @@ import (
 	"encoding/json"
 	"fmt"
 	seccomp "github.com/elastic/go-seccomp-bpf"
+	"strings"
 
 	"golang.org/x/net/bpf"
 	"pgregory.net/rapid"
@@ -24,8 +25,13 @@ type polCase struct {
 	Policy spec.Policy  `json:"policy"`
 	Seed   uint64       `json:"seed"`
 	Extra  []spec.Event `json:"extra,omitempty"`
-	// Prev: the same policy value was compiled for this architecture before it is compiled for its own
+	// Prev: an architecture name = the same policy value was compiled for that architecture before it is compiled for its
+	// own; "edited" = the value held and compiled another policy before; "copy" = the architecture is given by an equal
+	// copy of the package's Info value
 	Prev string `json:"prev_arch,omitempty"`
+	// OpCase != 0: the operation names handed to the compiler are written in another letter case (seeded by this
+	// value); the compiler may refuse them, but if it accepts them they must mean the documented operation
+	OpCase uint64 `json:"op_case,omitempty"`
 }
 
 type compiled struct {
@@ -53,7 +59,32 @@ func compilePolicyAfter(p *spec.Policy, prev string) (c *compiled, err error, pa
 		}
 	}()
 	sp := p.ToSeccomp()
-	if prev != "" && spec.ArchInfo(prev) != nil {
+	switch {
+	case prev == "edited":
+		// the value compiled a different policy before (same architecture: other default action, groups reversed, first
+		// group without its names) and was then overwritten field by field with this one
+		v := *p
+		v.Default = oracle.ActionList()[(len(p.Groups)+3)%7]
+		if v.Default == p.Default {
+			v.Default = oracle.ActionList()[(len(p.Groups)+4)%7]
+		}
+		v.Groups = nil
+		for i := len(p.Groups) - 1; i >= 0; i-- {
+			g := p.Groups[i]
+			if i == 0 && len(g.Names) > 1 {
+				g.Names = g.Names[:1]
+			}
+			v.Groups = append(v.Groups, g)
+		}
+		old := v.ToSeccomp()
+		old.Assemble()
+		old.DefaultAction, old.Syscalls = sp.DefaultAction, sp.Syscalls
+		sp = old
+	case prev == "copy":
+		// the architecture is described by an equal private copy of the package's Info value
+		info := *spec.ArchInfo(p.Arch)
+		seccomp.VerifSetArch(sp, &info)
+	case prev != "" && spec.ArchInfo(prev) != nil:
 		seccomp.VerifSetArch(sp, spec.ArchInfo(prev))
 		sp.Assemble()
 		seccomp.VerifSetArch(sp, spec.ArchInfo(p.Arch))
@@ -216,6 +247,9 @@ func policyShape(p *spec.Policy, c *compiled, s *evalStats) {
 		if g.Action == oracle.Const("SECCOMP_RET_ERRNO") {
 			s.class("errno-action")
 		}
+		if oracle.ActionName(g.Action) == "" {
+			s.class("group-action-with-data-bits")
+		}
 		if len(g.Names) >= len(gen.Universe(p.Arch)) {
 			s.class("whole-table-group")
 		}
@@ -232,4 +266,34 @@ func policyShape(p *spec.Policy, c *compiled, s *evalStats) {
 	if p.Default == oracle.Const("SECCOMP_RET_ERRNO") {
 		s.class("errno-default")
 	}
+}
+
+// mangleOps returns a copy of the policy in which about half of the operation names are written in lower, upper or
+// mixed case.
+func mangleOps(p *spec.Policy, seed uint64) *spec.Policy {
+	q := *p
+	q.Groups = nil
+	k := uint64(0)
+	for _, g := range p.Groups {
+		g2 := g
+		g2.Conds = nil
+		for _, ce := range g.Conds {
+			ce2 := spec.CondEntry{Name: ce.Name}
+			for _, c := range ce.Conds {
+				k++
+				switch gen.Mix(seed, k) % 6 {
+				case 0:
+					c.Op = strings.ToLower(c.Op)
+				case 1:
+					c.Op = strings.ToUpper(c.Op)
+				case 2:
+					c.Op = strings.ToLower(c.Op[:1]) + c.Op[1:]
+				}
+				ce2.Conds = append(ce2.Conds, c)
+			}
+			g2.Conds = append(g2.Conds, ce2)
+		}
+		q.Groups = append(q.Groups, g2)
+	}
+	return &q
 }
